@@ -15,7 +15,7 @@
 (***************************************************************************)
 EXTENDS JMES, Json, Toks, DocsApi
 
-CONSTANTS Emit, Prop, Gates, NCallSets, Rounds
+CONSTANTS Emit, Prop, Gates, NCallSets, Rounds, First   \* call sets First..NCallSets
 
 A == Id(<<97>>)  B == Id(<<98>>)
 Fn(name, args) == <<Id(name), LP>> \o args \o <<RP>>
@@ -54,7 +54,7 @@ Total(g) == Len(CallSets[cs][g]) * (Gates + 1)
 
 Expected(c) == IF c.op = "compile" THEN StaticAdmissible(Texts[c.t]) ELSE Admissible(Texts[c.t], Docs[c.d])
 
-Init == cs \in 1..NCallSets /\ pc = [g \in 1..Len(CallSets[cs]) |-> 0] /\ sched = <<>> /\ outs = <<>>
+Init == cs \in First..NCallSets /\ pc = [g \in 1..Len(CallSets[cs]) |-> 0] /\ sched = <<>> /\ outs = <<>>
 \* one segment of goroutine g; the last segment of a call is its End, where
 \* the outcome becomes visible to the caller
 Seg(g) == /\ pc[g] < Total(g)
